@@ -3,6 +3,9 @@
 # quick checks named, prints their verdict lines, and restores /repo (never commits).
 patch="$1"; shift
 cd /repo || exit 2
+# evidence files are only ever committed from runs on the unchanged tree: keep them aside
+rm -rf /verif/.s/evidence.keep && cp -a /verif/evidence /verif/.s/evidence.keep
+restore_evidence() { rm -rf /verif/evidence && mv /verif/.s/evidence.keep /verif/evidence; }
 if ! git diff --quiet; then echo "/repo has uncommitted changes"; exit 2; fi
 if ! git apply --check "$patch" 2>/dev/null; then echo "patch does not apply: $patch"; exit 2; fi
 git apply "$patch"
@@ -12,5 +15,6 @@ for c in "$@"; do
   echo "$out" | grep -E "^VIOLATION|signature=|^INFRA|KNOWN-FINDING" | head -6
 done
 git -C /repo checkout -- . 
+restore_evidence
 find /verif/replays -name '*.json' -delete 2>/dev/null
 git -C /repo status --short | head -3
